@@ -269,6 +269,11 @@ pub uninterp spec fn pseq<T, P>(p: &syn::punctuated::Punctuated<T, P>) -> Seq<T>
 /// Whether the list ends in a trailing punctuation token.
 pub uninterp spec fn ptrailing<T, P>(p: &syn::punctuated::Punctuated<T, P>) -> bool;
 
+/// tokens of a whole punctuated list `x1 p x2 p ... [p]` (uninterpreted)
+pub uninterp spec fn punctuated_toks<T, P>(p: &syn::punctuated::Punctuated<T, P>) -> Seq<Tok>;
+impl<T: ToTokens, P: ToTokens> ToTokensSpecImpl for syn::punctuated::Punctuated<T, P> {
+    open spec fn toks(&self) -> Seq<Tok> { punctuated_toks(self) }
+}
 /// A-arith: an in-memory list of non-zero-sized syntax nodes has at most isize::MAX elements
 pub axiom fn axiom_punctuated_len<T, P>(p: &syn::punctuated::Punctuated<T, P>)
     ensures #[trigger] pseq(p).len() <= usize::MAX / 2;
@@ -454,4 +459,13 @@ pub open spec fn delimited(open: Seq<Tok>, sep: Seq<Tok>, close: Seq<Tok>, items
 }
 
 
+} // verus!
+
+verus! {
+/// vacuity guard: this lemma MUST be refuted on every run; if the trusted layer were
+/// inconsistent it would verify.
+pub proof fn vx_canary()
+    ensures false,
+{
+}
 } // verus!
